@@ -331,6 +331,13 @@ FAMILIES = [
            required_labels=["multi-reason", "both-accept", "kind=series"]),
 ]
 
+from . import plx  # noqa: E402
+
+FAMILIES.append(
+    Family("polars_report", plx.eval_c02, strategy=lambda: plx.strat_case(parsers="none", containers=("df", "df", "lf_full")),
+           n_quick=350, n_thorough=3000, shards_quick=3, shards_thorough=12,
+           required_labels=["container=lf_full", "report-compared", "multi-reason"]))
+
 
 def selftest():
     refmodel.selftest()
